@@ -5,7 +5,7 @@ S is built from the integrals (Mura, Micromechanics of defects in solids, eq. 11
     D(s) = sqrt((a1^2+s)(a2^2+s)(a3^2+s)),
 evaluated by Gauss-Legendre quadrature (pure python floats) after s = m (x/(1-x))^2, which makes the integrand
 smooth on [0,1]: no closed form, no acos/acosh/elliptic integral is shared with the implementation.
-    S_iiii = Q a_i^2 I_ii + R I_i,  S_iijj = Q a_j^2 I_ij - R I_i,  S_ijij = Q/2 (a_i^2+a_j^2) I_ij + R/2 (I_i+I_j),
+    S_iiii = Q a_i^2 I_ii + R I_i,  S_iijj = Q/3 a_j^2 I_ij - R I_i,  S_ijij = Q/6 (a_i^2+a_j^2) I_ij + R/2 (I_i+I_j),
     Q = 3/(8 pi (1-nu)),  R = (1-2nu)/(8 pi (1-nu));   Mandel storage: shear entries 2 S_ijij at (3,3) (12), (4,4) (13), (5,5) (23).
 """
 import math
@@ -67,9 +67,9 @@ def eshelby(nu, a):
     S = [[0.0] * 6 for _ in range(6)]
     for i in range(3):
         for j in range(3):
-            S[i][j] = Q * a2[i] * II[i][i] + R * I[i] if i == j else Q * a2[j] * II[i][j] - R * I[i]
+            S[i][j] = Q * a2[i] * II[i][i] + R * I[i] if i == j else Q / 3 * a2[j] * II[i][j] - R * I[i]
     for k, (i, j) in enumerate(((0, 1), (0, 2), (1, 2))):
-        S[3 + k][3 + k] = 2 * (Q / 2 * (a2[i] + a2[j]) * II[i][j] + R / 2 * (I[i] + I[j]))
+        S[3 + k][3 + k] = 2 * (Q / 6 * (a2[i] + a2[j]) * II[i][j] + R / 2 * (I[i] + I[j]))
     return S
 
 
